@@ -328,13 +328,25 @@ func buildC18(model, parts, shape, appMode string, variant int) *c18Case {
 		}
 	case "NSX":
 		c.Device = "{}"
-		pol := func(rules []string) string {
-			return `{"policies":[{"id":"Netspoc-v1","rules":[` + strings.Join(rules, ",") + `]}]}` + "\n"
-		}
-		rule := func(id string, seq int, permit bool) string {
+		// With an odd variant every part carries three policies (three
+		// gateways), each with rules of its own.
+		twoPol := variant%2 == 1
+		ruleAt := func(id string, seq int, permit bool, gw string) string {
 			return fmt.Sprintf(`{"id":%q,"action":%q,"sequence_number":%d,"source_groups":["10.1.1.%d"],`+
-				`"destination_groups":["ANY"],"services":["ANY"],"scope":["/infra/tier-0s/v1"],"direction":"OUT"}`,
-				id, act(permit, "ALLOW", "DROP"), seq, seq%250)
+				`"destination_groups":["ANY"],"services":["ANY"],"scope":["/infra/tier-0s/%s"],"direction":"OUT"}`,
+				id, act(permit, "ALLOW", "DROP"), seq, seq%250, gw)
+		}
+		rule := func(id string, seq int, permit bool) string { return ruleAt(id, seq, permit, "v1") }
+		pol := func(rules []string) string {
+			more := ""
+			if twoPol {
+				for k, gw := range []string{"v2", "v3"} {
+					id := fmt.Sprintf("p%s-%d", gw, uid())
+					more += `,{"id":"Netspoc-` + gw + `","rules":[` + ruleAt(id, 700+k, true, gw) + `]}`
+					add(`"`+id+`"`, "part", false, true, "Netspoc-"+gw, 0)
+				}
+			}
+			return `{"policies":[{"id":"Netspoc-v1","rules":[` + strings.Join(rules, ",") + `]}` + more + `]}` + "\n"
 		}
 		if hasV4 {
 			var l []string
